@@ -233,6 +233,18 @@ impl Connection {
         Ok(())
     }
     
+    /// Has the peer closed its end of the socket? Non-blocking: looks at the socket without consuming
+    /// anything (unread bytes count as "still there")
+    pub fn peer_closed(&self) -> bool {
+        let mut probe = [0u8; 1];
+        match self.stream.peek(&mut probe) {
+            Ok(0) => true,
+            Ok(_) => false,
+            Err(e) if e.kind() == ErrorKind::WouldBlock || e.kind() == ErrorKind::Interrupted => false,
+            Err(_) => true,
+        }
+    }
+    
     /// Check if the connection has data to write
     pub fn has_pending_writes(&self) -> bool {
         self.write_offset < self.write_buffer.len()
